@@ -41,8 +41,6 @@ def _(eng, ci, a, dt):
     return Ref([_language_en(eng)], 0)
 
 
-def install(eng):
-    eng.crate_intercepts = ICP
 
 
 @icp('dates::date_to_serial_number', 'fn date_to_serial_number')
@@ -58,3 +56,34 @@ def _(eng, ci, a, dt):
     if eng.truth(valid):
         return ok(serial)
     return err(mkstr('Out of range parameters for date'))
+
+
+# ----------------------------------------------------------------------------- bitcode on the diff queue: identity
+# `flush_send_queue` / `apply_external_diffs` serialise the queue with bitcode.  The serialisation itself is outside
+# the claim (DESIGN 3.3): encode returns a byte vector that stands for the queue, decode gives the queue back.
+
+def install(eng):
+    eng.crate_intercepts = ICP
+    from .mcore import MODELS, seq_items
+
+    def encode(e, ci, a, dt):
+        if 'QueueDiffs' not in ci.text:
+            raise Unsupported('bitcode::encode of ' + ci.text)
+        e.assumptions.add('bitcode::encode/decode of the diff queue cut out as identity (serialisation is not the subject)')
+        out = VecV([0])
+        if not hasattr(e, 'bitcode_payloads'):
+            e.bitcode_payloads = {}
+        e.bitcode_payloads[id(out.f)] = (out.f, copy_value(deref(a[0])))
+        return out
+
+    def decode(e, ci, a, dt):
+        if 'QueueDiffs' not in ci.text:
+            raise Unsupported('bitcode::decode of ' + ci.text)
+        lst, lo, hi = seq_items(a[0])
+        ent = getattr(e, 'bitcode_payloads', {}).get(id(lst))
+        if ent is None or ent[0] is not lst:
+            raise Unsupported('bitcode::decode of bytes that did not come from bitcode::encode')
+        return ok(copy_value(ent[1]))
+
+    MODELS['encode'] = encode
+    MODELS['decode'] = decode
